@@ -1111,8 +1111,13 @@ def run(ctx):
     try:
         changed = genaffine.generate()
     except Exception as ex:
-        ctx.broken.append({"kind": "translator", "what": "closed-form blocks of the mappings not recognised",
-                           "err": repr(ex)})
+        # (the formulas the theorems quote then are those of the last successful translation; they remain tied
+        # to the live code by the exact comparison of A, b, det, inverse, F, invF, normals, B, c, detB, G)
+        ctx.translator_failed("closed-form blocks of the mappings not recognised", ex,
+                              ["map.aff(A,b)", "map.aff(det)", "map.aff(inv)", "map.aff(F)", "map.aff(invF)",
+                               "map.aff(normals)", "map.affbnd(B,c)", "map.affbnd(detB)", "map.affbnd(G)",
+                               "map.iso(F)", "map.iso(J)", "map.iso(det)", "map.iso(inv)", "map.iso(normals)",
+                               "map.isobnd(G)", "map.isobnd(BJ)", "map.isobnd(detDG)"])
     ctx.notes["generated_files_changed"] = bool(changed)
     if not getattr(ctx, "no_lean", False):
         ctx.prove(["SkfemVerif.Props.C10"], ["SkfemVerif/Props/C10.lean"])
